@@ -350,12 +350,13 @@ class SRatio:
     """Exact rational n/d, d a concrete positive int: exact-mode stand-in for a
     Python float that holds seconds / microseconds."""
 
-    def __init__(self, n, d=1, tag=None):
+    def __init__(self, n, d=1, tag=None, floaty=False):
         if isinstance(n, SInt):
             n = n.z
         self.n = n
         self.d = d
         self.tag = tag
+        self.floaty = floaty  # stands for a Python float produced by timestamp()/total_seconds() arithmetic
 
     @staticmethod
     def of(x):
@@ -385,9 +386,10 @@ class SRatio:
             o = SRatio.of(o)
         except TypeError:
             return NotImplemented
+        fl = self.floaty or o.floaty
         if self.d == o.d:
-            return SRatio(self.n + o.n, self.d)
-        return SRatio(self.n * o.d + o.n * self.d, self.d * o.d)
+            return SRatio(self.n + o.n, self.d, floaty=fl)
+        return SRatio(self.n * o.d + o.n * self.d, self.d * o.d, floaty=fl)
 
     __radd__ = __add__
 
@@ -396,15 +398,16 @@ class SRatio:
             o = SRatio.of(o)
         except TypeError:
             return NotImplemented
+        fl = self.floaty or o.floaty
         if self.d == o.d:
-            return SRatio(self.n - o.n, self.d)
-        return SRatio(self.n * o.d - o.n * self.d, self.d * o.d)
+            return SRatio(self.n - o.n, self.d, floaty=fl)
+        return SRatio(self.n * o.d - o.n * self.d, self.d * o.d, floaty=fl)
 
     def __rsub__(self, o):
         return SRatio.of(o).__sub__(self)
 
     def __neg__(self):
-        return SRatio(-self.n, self.d)
+        return SRatio(-self.n, self.d, floaty=self.floaty)
 
     def __mul__(self, o):
         if isinstance(o, (SInt, SRatio)) and not isinstance(SRatio.of(o).n, int):
@@ -417,7 +420,7 @@ class SRatio:
 
         num, den = o.n, o.d
         g = math.gcd(num, self.d) if num else self.d
-        return SRatio(self.n * (num // g), (self.d // g) * den)
+        return SRatio(self.n * (num // g), (self.d // g) * den, floaty=self.floaty or o.floaty)
 
     __rmul__ = __mul__
 
@@ -425,7 +428,7 @@ class SRatio:
         if isinstance(o, float) and o == int(o):
             o = int(o)
         if isinstance(o, int) and not isinstance(o, bool) and o > 0:
-            return SRatio(self.n, self.d * o)
+            return SRatio(self.n, self.d * o, floaty=self.floaty)
         raise Unsupported("SRatio / %r" % (o,))
 
     def _cmp(self, o, op):
@@ -647,7 +650,7 @@ class STimedelta(timedelta):
 
         if fp.IEEE:
             return fp.int_div_const(self.us, 1000000)
-        return SRatio(self.us, 1000000, tag=("total_seconds_of", self))
+        return SRatio(self.us, 1000000, tag=("total_seconds_of", self), floaty=True)
 
     def __deepcopy__(self, memo):
         return self
@@ -836,7 +839,7 @@ class SDatetime(datetime):
 
         if fp.IEEE:
             return fp.int_div_const(self.us, 1000000)
-        return SRatio(self.us, 1000000, tag=("timestamp_of", self))
+        return SRatio(self.us, 1000000, tag=("timestamp_of", self), floaty=True)
 
     def isoformat(self, sep="T", timespec="auto"):
         from .sstr import SIsoStr, iso_render
